@@ -28,6 +28,7 @@ def main(tier):
     r = cx.repo
     chk.run("R-CASEDEDUP", B.casededup, r, floor=3)
     chk.run("R-ENUMCASE", B.enumcase, r, floor=2)
+    chk.run("R-NAMEARMS", B.namearms, r, floor=1)
     chk.run("R-ENUMTEXT", CC.enumtext, cx.cpp, floor=2, clauses=("decode",))
     chk.run("R-CASECONV", NC.caseconv, r, floor=1000)
     chk.run("R-ENUMINFER", V.enuminfer, r, floor=4)
